@@ -147,7 +147,7 @@ func (r vFailReader) Read(p []byte) (int, error) { return 0, r.err }
 // same time never hold the same one. (A buffer returned to the pool twice would be handed to two streams at once and
 // carry one caller's bytes into the other's result.) Also for the header reader.
 //
-//verif:harness prop=C08 name=pool_one_holder_per_buffer unwind=40 race=off
+//verif:harness prop=C08 name=pool_one_holder_per_buffer unwind=40 race=off replay_attempts=6
 func VerifPoolOneHolder() {
 	if !zzverif.Symbolic() {
 		// the real sync.Pool keeps per-P caches: with one P what was put back is what the next Get returns
